@@ -53,9 +53,14 @@ func Parse(yangfiles, path []string) (map[string]*yang.Entry, []error) {
 	}
 
 	entries := make(map[string]*yang.Entry)
-	for _, m := range ms.Modules {
-		e := yang.ToEntry(m)
-		entries[e.Name] = e
+	for name, m := range ms.Modules {
+		// A module with a revision is listed under its name and under
+		// name@revision; when several revisions of a module are read the
+		// name denotes the most recent one.
+		if name != m.Name {
+			continue
+		}
+		entries[name] = yang.ToEntry(m)
 	}
 
 	return entries, nil
